@@ -1,5 +1,5 @@
-#ifndef TBFSMSPECXALGORITHMCUDA_HPP
-#define TBFSMSPECXALGORITHMCUDA_HPP
+#ifndef TBFSMSTARPUALGORITHMCUDA_HPP
+#define TBFSMSTARPUALGORITHMCUDA_HPP
 
 #include "tbfglobal.hpp"
 
